@@ -196,12 +196,13 @@ func c14Run(r *vt.Run, fam map[uint8]vSet, c c14Case) {
 	var got res
 	select {
 	case got = <-ch:
-	case <-time.After(20 * time.Second):
+	case <-time.After(5 * time.Second):
 		// one retry before calling it non-termination (only wall-clock oracle; margin >= 10^6 x)
 		select {
 		case got = <-ch:
-		case <-time.After(20 * time.Second):
-			r.Violate("C14/1-terminates", "getMostDesirableNode did not return within 40 s", c)
+		case <-time.After(5 * time.Second):
+			r.Violate("C14/1-terminates", "getMostDesirableNode did not return within 10 s", c)
+			r.Abort("a call under test did not terminate; worker stopped after reporting it")
 			return
 		}
 	}
